@@ -863,6 +863,15 @@ def r9(rr, repo):
             polled_only = False
     rr.ob('a source that is out of the poller (its set is complete) is still read for out-of-band messages while the join waits for the others', not polled_only or not unreg, za.mod, unreg[0] if unreg else za.R_once,
           witness=f'{len(unreg)} unregister site(s) for complete sources; sockets are read only when the poller reports them: {polled_only}', key='complete-source-exit-unheard')
+    # ... and while it waits for its OUTPUTS: the send wait of loop_once reads the request sockets only (MQ.send); the exit announcement of a source arrives on a SUB socket, which nothing reads
+    # until the next recv() - a filter whose output nobody takes (an optional viewer, a required output that never comes up) never learns that its source is gone
+    fmod_, lo = repo.find(f'{FILTER}::Filter.loop_once')
+    swaits = [n for n in walk_scope(lo) if isinstance(n, ast.While) and 'self.mq.send(' in U(n.test)]
+    rr.floor('send wait loops in loop_once', len(swaits), 1, fmod_, lo)
+    for w in swaits:
+        reads_src = [c for c in q.calls_in(w, into_functions=False) if U(c.func).startswith('self.mq.') and any(k in U(c.func) for k in ('recv', 'poll_sources', 'receiver', 'poll_oob'))]
+        rr.ob('loop_once: while waiting for its outputs a filter still reads what its sources send out of band, so an upstream exit is heard', bool(reads_src), fmod_, w,
+              witness=f'calls that read the sources inside the send wait: {[U(c)[:40] for c in reads_src] or "none"}', key='send-wait-source-exit-unheard')
 
 
 @rule('C08.R10', "the kind of exit that is announced is the kind that happened: Filter.run decides 'clean' or 'error' from the exception that actually passed through setup / the loop / shutdown - not from "
